@@ -87,7 +87,7 @@ def validate(paths, jvms=8, workers=2, scratch=None, timeout=3600, module="Trace
             p = futs[fu]
             with open(p) as f:
                 txt = f.read()
-                ncases = txt.count('"runs":') if module == "TraceExpr" else txt.count('"kind":"h') if module == "TraceC20" else txt.count('"events":') + (txt.count('"clause":') if module == "Trace" else 0)
+                ncases = txt.count('"runs":') if module == "TraceExpr" else txt.count('"kind":"h') if module == "TraceC20" else txt.count('"members":') if module == "TraceKsy" else txt.count('"events":') + (txt.count('"clause":') if module == "Trace" else 0)
             if len(vs) != ncases:
                 raise tlc.MachineryError("shard %s: %d cases but %d verdicts" % (p, ncases, len(vs)))
             verdicts.extend(vs)
